@@ -149,21 +149,22 @@ def tableOf (b : Backend) : Option CApplyTable := Gen.cApply.find? (·.backend =
 def rowOf (b : Backend) (al : String) : Option CRow :=
   (tableOf b).bind fun t => t.rows.find? (·.alias == al)
 
-/-- **Known finding F6**, on the current source: `sylvan.pyx` `apply('\A', u, v)` is
-`sylvan_forall(u.node, v.node)`, and Sylvan's signature is `sylvan_forall(a, qvars)`: the
-FIRST operand is quantified over the variables of the SECOND — the roles are swapped with
-respect to `dd.bdd` (and `cudd.pyx`, `cudd_zdd.pyx`).  Same for `'\E'`, `'forall'`, `'exists'`. -/
-theorem cQuant_roles_sylvan_swapped :
-    (rowOf .sylvan "\\A").bind cRowRoles = some (true, .v, .u) ∧
-    (rowOf .sylvan "forall").bind cRowRoles = some (true, .v, .u) ∧
-    (rowOf .sylvan "\\E").bind cRowRoles = some (false, .v, .u) ∧
-    (rowOf .sylvan "exists").bind cRowRoles = some (false, .v, .u) := by decide
+/-- the Sylvan entry (finding F6, repaired): `sylvan.pyx` `apply('\\A', u, v)` is
+`sylvan_forall(v.node, u.node)`, and Sylvan's signature is `sylvan_forall(a, qvars)`: the SECOND
+operand is quantified over the variables of the FIRST, as in `dd.bdd`, `cudd.pyx` and
+`cudd_zdd.pyx`.  Same for `'\\E'`, `'forall'`, `'exists'`.  (Before the repair the generated rows
+were `(·, .v, .u)` and this theorem's negation was the proved statement.) -/
+theorem cQuant_roles_sylvan :
+    (rowOf .sylvan "\\A").bind cRowRoles = some (true, .u, .v) ∧
+    (rowOf .sylvan "forall").bind cRowRoles = some (true, .u, .v) ∧
+    (rowOf .sylvan "\\E").bind cRowRoles = some (false, .u, .v) ∧
+    (rowOf .sylvan "exists").bind cRowRoles = some (false, .u, .v) := by decide
 
-/-- the full statement FAILS on the current source (because of the Sylvan entry) -/
-theorem cQuant_roles_statement_false : ¬ cQuant_roles_statement := by
+/-- **C19 (operand roles)**: the full statement holds on the current source, for every back end -/
+theorem cQuant_roles : cQuant_roles_statement := by
   unfold cQuant_roles_statement; decide
 
-/-- **C19 (operand roles), proved part**: every back end other than Sylvan -/
+/-- the same without the Sylvan entry (kept: it was the proved part while F6 was open) -/
 theorem cQuant_roles_partial :
     (Gen.cApply.all fun t => t.backend == .sylvan || cQuantOk t) = true := by decide
 
